@@ -468,6 +468,27 @@ def _query(ctx, P, obj, p, policy, model, step, nset):
                       _rel(float(Lint.reshape(-1)[i]), l_s), 1e-11,
                       "integer distance array element d=%d" % di[i], t)
         ctx.label("int_distance_array_checked")
+    # METIS: one wall count PER ROW of a 2-D distance array (broadcasting of
+    # num_walls against the distances) gives what each link gives alone
+    if model == "metis" and len(shape) == 2 and shape[1] >= 2 and policy:
+        Dm = np.array(ds, dtype=float).reshape(shape)
+        w_rows = np.array([[int(wl[0])], [int(wl[-1])]], dtype=int)  # (2, 1)
+        Rb = np.asarray(obj.calc_path_loss_dB(Dm, num_walls=w_rows),
+                        dtype=float)
+        if Rb.shape != shape:
+            raise Violation("result_shape", "num_walls of shape (2, 1) with "
+                            "distances %r gave shape %r" % (shape, Rb.shape),
+                            t)
+        for r in range(2):
+            for c in range(shape[1]):
+                one = float(obj.calc_path_loss_dB(
+                    float(Dm[r, c]), num_walls=int(w_rows[r, 0])))
+                ctx.close("walls_broadcast_per_row", abs(Rb[r, c] - one),
+                          1e-11 * max(1.0, abs(one)),
+                          "d[%d,%d]=%r walls(row)=%d: array %r, single link "
+                          "%r" % (r, c, Dm[r, c], w_rows[r, 0], Rb[r, c],
+                                  one), t)
+        ctx.label("metis:walls_broadcast_per_row")
     # monotone in distance (same wall count)
     order = sorted(range(n), key=lambda i: ds[i])
     for a in range(n):
